@@ -28,18 +28,19 @@ EXHAUSTIVE_COMPLETE = True
 
 E = ...
 LEN_FORMS = [[0], [2], [3], [0, E], [2, E], [3, E], [E, 0], [E, 2], [E, 5], [0, 2], [1, 1], [2, 5],
-             [3, 1]]
+             [3, 1], [-1, E], [-1, 2], [E, -1], [-1]]
 INT = {"min": [[-1], [0], [2]], "max": [[-1], [0], [2]]}
 # 0.54 / 0.46 / 1.2 / 1.3 lie on the wrong side of the base values 0.5 / 1.25 but coincide with them
 # once rounded at precision 1 (a refinement that compares "as the validator would" goes wrong there)
-FLOAT = {"min": [[-1.0], [0.5], [2.0], [0.54], [1.3]], "max": [[-1.0], [0.5], [2.0], [0.46], [1.2]],
+BIG = 1.7976931348623157e308        # (scaling it by 10**precision overflows)
+FLOAT = {"min": [[-1.0], [0.5], [2.0], [0.54], [1.3], [BIG], [-BIG]], "max": [[-1.0], [0.5], [2.0], [0.46], [1.2], [BIG], [-BIG]],
          "precision": [[1], [3]]}
 STR = {"len": LEN_FORMS, "alphabet": [["ab"], ["a"], [""]], "contains": [["a"], ["ab"], ["ba"], ["aa"], ["c"], [""]],
        "regex": [["a"], ["^ab$"], ["c+"], [""]]}
 LIST = {"len": LEN_FORMS}
 BASES = {
     "int": [None, ["value", 0], ["value", 1]],
-    "float": [None, ["value", 0.5], ["value", 1.25]],
+    "float": [None, ["value", 0.5], ["value", 1.25], ["value", BIG]],
     "str": [None, ["value", "ab"], ["value", ""], ["value", "aab"]],
     "list": [None, ["typed"], ["elems", 0], ["elems", 2], ["head", 1], ["ellipsis"]],
 }
